@@ -422,6 +422,30 @@ theorem absorb_nopause {s : St} (hs : Inv s) (g rest : List Arrival)
       rw [c1, b1, List.append_assoc]
     · rw [dataOf_append, b2, c2, hsplit]
 
+/-- `readuntil` reports a partial result in front of an exception item only when it has read something -/
+theorem scan_excPartial_nonempty (me : Bool) (seps : List Bytes) (seplen : Nat) (rbuf : Bytes) (cur : Nat)
+    (items : List Item) (nb : List Item) : scan me seps seplen rbuf cur items ≠ .excPartial [] nb := by
+  induction items generalizing rbuf cur with
+  | nil => simp [scan]
+  | cons it rest ih =>
+    cases it with
+    | exc e =>
+      unfold scan
+      split
+      · next h =>
+        intro hc
+        simp only [ScanOut.excPartial.injEq] at hc
+        simp [hc.1] at h
+      · split
+        · cases e <;> simp
+        · simp
+    | data b =>
+      unfold scan
+      simp only
+      split
+      · simp
+      · exact ih _ _
+
 theorem untilLoop_unfold (me : Bool) (seps : List Bytes) (seplen : Nat) (s : St) (rbuf : Bytes) (cur : Nat) (sched : Sched) :
     untilLoop me seps seplen s rbuf cur sched =
       match scan me seps seplen rbuf cur (s.buf.drop cur) with
@@ -431,7 +455,7 @@ theorem untilLoop_unfold (me : Bool) (seps : List Bytes) (seplen : Nat) (s : St)
       | .softEof nb => (.ok [], { s with buf := nb }, sched)
       | .popType nb => (.typeError, { s with buf := nb }, sched)
       | .more rbuf' cur' =>
-        if s.paused || s.eof then
+        if (s.paused && !rbuf'.isEmpty) || s.eof then
           (.incomplete rbuf', (maybeResume { s with buf := s.buf.drop cur', bufLen := s.bufLen - rbuf'.length }).1, sched)
         else match sched with
           | [] => (.blocked, s, [])
@@ -520,7 +544,7 @@ theorem until_more (me : Bool) (seps : List Bytes) (seplen : Nat)
       simp [sdata, CleanFrom_true this, adata]
     refine ⟨hD, { s with buf := [], bufLen := s.bufLen - (dataOf s.buf).length }, ?_, ⟨⟨?_, ?_, ?_, ?_⟩, ?_⟩⟩
     · rw [untilLoop_unfold, hscan]
-      have hcond : (s.paused || s.eof) = true := by simp [he]
+      have hcond : ((s.paused && !(dataOf s.buf).isEmpty) || s.eof) = true := by simp [he]
       simp only
       rw [if_pos hcond,
         maybeResume_unpaused { s with buf := s.buf.drop s.buf.length, bufLen := s.bufLen - (dataOf s.buf).length } hp]
@@ -536,7 +560,7 @@ theorem until_more (me : Bool) (seps : List Bytes) (seplen : Nat)
       · exact Or.inl h
       · right; simp only; omega
   · intro he
-    have hcond : ¬ (s.paused || s.eof) = true := by simp [he, hp]
+    have hcond : ¬ ((s.paused && !(dataOf s.buf).isEmpty) || s.eof) = true := by simp [he, hp]
     refine ⟨by simp [eofPend, he, hce], ?_, ?_⟩
     · intro h
       subst h
